@@ -75,13 +75,13 @@ _SUBST = [(["RG", [2], [0.5], False], ["RG", [4], [0.3], False]),
 _SUBST2 = [(["RG", [2], [0.5], False], ["RG", [5], [1.5], False]),
            (["RG", [3], [0.5], False], ["RG", [4], [0.1], False]),
            (["RG", [4], [0.25], False], ["RG", [7], [0.3], False]),
-           (["RG", [2, 3], [0.5, 2.0], False], ["RG", [4, 2], [1.0, 0.25], False]),
-           (["RG", [3, 2], [0.3, 0.7], False], ["RG", [2, 5], [0.4, 0.4], False]),
+           (["RG", [2, 3], [0.5, 2.0], False], ["RG", [4, 3], [1.0, 0.25], False]),
+           (["RG", [3, 2], [0.3, 0.7], False], ["RG", [3, 5], [0.4, 0.4], False]),
            (["RG", [2], [0.7], True], ["RG", [5], [0.2], True]),
            (["RG", [3], [0.7], True], ["RG", [4], [1.1], True]),
            (["RG", [4], [0.5], True], ["RG", [7], [0.35], True]),
-           (["RG", [2, 3], [0.5, 1.0], True], ["RG", [4, 2], [0.3, 0.9], True]),
-           (["U", [2]], ["U", [4]]), (["U", [3]], ["U", [2]]),
+           (["RG", [2, 3], [0.5, 1.0], True], ["RG", [4, 3], [0.3, 0.9], True]),
+           (["U", [2]], ["U", [4]]), (["U", [3]], ["U", [5]]),      # every substitution grows every axis (index lists stay valid)
            (["GL", 2, 3], ["GL", 2, 5]), (["LM", 1, 1], ["LM", 3, 2]), (["LM", 2, 2], ["LM", 4, 4]),
            (["HP", 1], ["HP", 2])]
 
